@@ -1,4 +1,5 @@
 import RpmVerif.Lemmas.Header
+import RpmVerif.Props.C03
 /-!
 # C16 — reported segment offsets are the real byte boundaries
 
@@ -146,6 +147,25 @@ theorem offsets_locate_input_sig {bs p} (hp : parsePackage bs = .ok p) :
     simp only [List.append_assoc]
   · simp only [offsets, lds, List.length_append, hs, hpad]; omega
   · simp only [offsets, lds, hh]; omega
+
+/-- **C03 ∘ C16**: the byte ranges whose digests `verify_digests` recomputes (spec `DigestSpec.rawHeader` / `rawContent`, written over
+the raw input) are exactly the ranges the reported offsets delimit: the content is everything from `payload` on, the hashed header is
+the slice `[hdr, payload)` of the input with its four reserved intro bytes zeroed -/
+theorem digest_ranges_are_offsets {bs p} (hp : parsePackage bs = .ok p) :
+    DigestSpec.rawContent bs = bs.drop (offsets p.md).payload
+    ∧ DigestSpec.rawHeader bs =
+        Canon.zeroReserved ((bs.drop (offsets p.md).hdr).take ((offsets p.md).payload - (offsets p.md).hdr)) := by
+  obtain ⟨r1, r2⟩ := C03.raw_ranges hp
+  obtain ⟨h1, _, _, _⟩ := offsets_locate_input hp
+  obtain ⟨res1, pad, res2, _, _, hr2, hd, _, hlen⟩ := offsets_locate_input_sig hp
+  obtain ⟨res, hr, hd2⟩ := (offsets_locate_input hp).2.1
+  refine ⟨by rw [r2, h1], ?_⟩
+  have hl : (hdrBytes res p.md.header).length = (hdrBytes res2 p.md.header).length := by
+    simp only [hdrBytes, List.length_append, hr, hr2]
+  rw [r1, hd2, hlen, ← hl, List.take_left]
+  have z := C01.zeroReserved_hdrBytes p.md.header hr []
+  simp only [List.append_nil] at z
+  rw [z, writeHeader_eq]
 
 /-! ### widths (audit a15 / c11): the arithmetic of the CODE, with the widths of its Rust types
 
